@@ -112,11 +112,25 @@ class Gen:
         lo = self.rng.randint(0, h - 1)
         return (lo, self.rng.randint(lo + 1, h))
 
+    def interval_list(self, lo_n=1, hi_n=3):
+        """1..3 intervals; a quarter of the lists are chains of touching intervals (a,b),(b,c): the shared instant is
+        where `<` / `<=` slips and zero-length items show"""
+        rng = self.rng
+        n = rng.randint(lo_n, hi_n)
+        if n >= 2 and rng.random() < 0.25:
+            h = self.H()
+            cuts = sorted(rng.sample(range(0, h + 1), min(n + 1, h + 1)))
+            chain = list(zip(cuts, cuts[1:]))
+            if rng.random() < 0.3:
+                rng.shuffle(chain)
+            return chain
+        return [self.interval() for _ in range(n)]
+
     def intervals_for_count(self):
         """1..4 intervals, in any order; a third of the lists contain nested / overlapping non-neighbouring entries"""
         rng = self.rng
-        ivs = [self.interval() for _ in range(rng.randint(1, 3))]
-        if rng.random() < 0.35:
+        ivs = self.interval_list(1, 3)
+        if rng.random() < 0.3:
             lo, hi = self.interval()
             inner = (lo, hi) if hi - lo < 2 else (lo + 1, hi)
             far = (min(self.H(), hi + 2), min(self.H(), hi + 2) + 2)
@@ -329,7 +343,7 @@ class Gen:
         res = self.assigned_resources()
         if res:
             r = rng.choice(res)
-            forms += [lambda: ("unavailable", r, [self.interval()])] * 2
+            forms += [lambda: ("unavailable", r, self.interval_list(1, 2))] * 2
         ns = self.nselects()
         if ns >= 2:
             forms += [lambda: ("sameWorkers", rng.randrange(ns), rng.randrange(ns))]
@@ -457,7 +471,7 @@ class Gen:
         r2 = rng.choice(two) if two and rng.random() < 0.85 else r
         plain = [n for n in res if n in self.real.workers]
         rp = rng.choice(plain) if plain and rng.random() < 0.9 else r
-        ivs = lambda: [self.interval() for _ in range(rng.randint(1, 3))]
+        ivs = lambda: self.interval_list(1, 3)
         period = rng.choice([5, 7, 10, 10])
 
         def in_period():
